@@ -159,7 +159,23 @@ pub fn mutate_semantic(p: &mut Program, rng: &mut Rng) -> Option<String> {
         let ti = rng.usize(p.txs.len());
         let foreign = foreign_names(p);
         let tx = &mut p.txs[ti];
-        match rng.below(10) {
+        match rng.below(11) {
+            10 => {
+                // an asset (that some tx constructs) whose policy or name is written as a name in scope - an env
+                // var, a parameter, a party, a policy, another asset ... - instead of a literal
+                if !p.assets.is_empty() {
+                    let k = rng.usize(p.assets.len());
+                    let (kind, name) = rng.pick(&foreign).clone();
+                    let text = if rng.chance(1, 4) { format!("concat({name}, 0x00)") } else { name };
+                    if rng.bool() {
+                        p.assets[k].raw_policy = Some(text);
+                        return Some(format!("asset-policy-is-{kind}"));
+                    } else {
+                        p.assets[k].raw_asset_name = Some(text);
+                        return Some(format!("asset-name-is-{kind}"));
+                    }
+                }
+            }
             9 => {
                 // an asset named like a built-in function: its constructor calls read `tip_slot(5)`
                 if !p.assets.is_empty() {
